@@ -136,6 +136,11 @@ def catch(ctx: Ctx, rule: str = "R-C02-CATCH") -> None:
     ctx.check(ok, rule, f, "asyncio.wait_for(actor.fn(...), timeout=execution_timeout)", "actor bounded by the message's execution timeout",
               "the actor call is not bounded by wait_for with the message's execution_timeout: a hanging actor never gets a disposition",
               node=fn_calls[0], instance="actor call under wait_for(timeout)")
+    if len(wf) == 1 and C.arg(wf[0], 1, "timeout") is not None:
+        trunc = [a for x in C.expand_locals(f, C.arg(wf[0], 1, "timeout")) for a in ast.walk(x) if isinstance(a, ast.Attribute) and a.attr in ("seconds", "microseconds", "days")]
+        ctx.check(not trunc, rule, f, "time limit = whole execution_timeout (total_seconds)", "no truncated timedelta field",
+                  f"the actor's time limit is computed from `{unparse(trunc[0]) if trunc else ''}`: the .seconds field drops whole days, so a timeout of a day or more becomes "
+                  "(close to) zero and a job that would succeed is cancelled at once and retried/dead-lettered", node=trunc[0] if trunc else None, instance="time limit not truncated")
     aw = [n for n in ast.walk(f.node) if isinstance(n, ast.Await) and wf and n.value is wf[0]]
     ctx.check(bool(aw), rule, f, "await of wait_for", "awaited", "the wait_for(...) around the actor is not awaited", instance="wait_for awaited")
 
